@@ -199,7 +199,7 @@ prop('C15', title='Keychain contents, defaults and signers stay consistent over 
      level_note='SQL trigger semantics live in SQL text executed by SQLite: no contract on the Python functions can express them '
                 '(DESIGN.md 6/C15). Deductive fragments (unbounded, pyvc/z3, database / TPM as assumed ghost interfaces): get_signer for '
                 'every combination of arguments (selection cert > key > identity > default, key locator, TPM signer for exactly that '
-                'pair, cache keyed by the pair); del_key / del_cert / new_key / import_cert / touch_identity with a failure of any '
+                'pair, cache keyed by the pair); del_key / del_cert / new_key / import_cert / touch_identity / del_identity (any number of keys) with a failure of any '
                 'exception class injected at every database and TPM step: nothing uncommitted is left behind, failures are rolled back, '
                 'an orphan private key is removed, the signer cache is emptied before any deletion.',
      technique=T_BOUNDED)
